@@ -61,6 +61,7 @@ def cases(ctx):
     if ctx.shard == 0:
         yield 'extra', {}
     n = 3000 if q else 40000
+    ctx.new_phase()
     for i in range(n):
         if not ctx.time_left():
             break
